@@ -195,6 +195,8 @@ func modelScan(ep *Episode, k int) (refusedBefore, valid bool, kind string) {
 				idx = uint32(op.Signs)
 			}
 			return true
+		case "sibling", "other":
+			return true
 		}
 		return true
 	}
